@@ -77,10 +77,10 @@ def _accepts_common(cond, raw, kind, n, k, edges, starts, finals, w, wlen):
 def c01_accepts_dense(kind: int, bits: B8, starts: int, finals: int,
                       w: Tuple[int, int], wlen: int) -> bool:
     """
+    pre: pinned(kind=kind, starts=starts, finals=finals, b0=bits[0], b1=bits[1])
     pre: 0 <= kind < 3 and 0 <= starts < 4 and 0 <= finals < 4 and 0 <= wlen <= 2
     pre: 0 <= w[0] < (3 if kind == 0 else 2) and 0 <= w[1] < (3 if kind == 0 else 2)
     pre: (wlen > 1 or w[1] == 0) and (wlen > 0 or w[0] == 0)
-    pre: pinned(kind=kind, starts=starts, finals=finals, b0=bits[0], b1=bits[1])
     post: _
     """
     edges = enc.decode_enfa_dense(bits, 2, 1)
@@ -97,12 +97,12 @@ T12 = Tuple[int, int, int, int, int, int, int, int, int, int, int, int]
 def c01_accepts_sparse(kind: int, n: int, k: int, t: T12, m: int, starts: int, finals: int,
                        w: Tuple[int, int, int], wlen: int) -> bool:
     """
+    pre: pinned(kind=kind, n=n, k=k, m=m, starts=starts, wlen=wlen, t0=t[0], t1=t[1])
     pre: 0 <= kind < 3 and 2 <= n <= 3 and 1 <= k <= 2 and 0 <= m <= 4
     pre: 0 <= starts < (4 if n == 2 else 8) and 0 <= finals < (4 if n == 2 else 8) and 0 <= wlen <= 3
     pre: all(0 <= t[3 * i] < n and 0 <= t[3 * i + 1] <= k and 0 <= t[3 * i + 2] < n for i in range(4))
     pre: sparse_canonical(t, m)
     pre: all(0 <= w[i] < k + 2 + (1 if kind == 0 else 0) and (i < wlen or w[i] == 0) for i in range(3))
-    pre: pinned(kind=kind, n=n, k=k, m=m, starts=starts, wlen=wlen, t0=t[0], t1=t[1])
     post: _
     """
     nn = enc.pick(n, 4)
@@ -185,8 +185,8 @@ def _structural(cond, raw, kd, n, k, edges, st, fi, labels=None, order=None):
 
 def c01_structural_dense(kind: int, bits: B8, starts: int, finals: int) -> bool:
     """
-    pre: 0 <= kind < 3 and 0 <= starts < 4 and 0 <= finals < 4
     pre: pinned(kind=kind, starts=starts, finals=finals, b0=bits[0], b1=bits[1], b2=bits[2])
+    pre: 0 <= kind < 3 and 0 <= starts < 4 and 0 <= finals < 4
     post: _
     """
     edges = enc.decode_enfa_dense(bits, 2, 1)
@@ -199,12 +199,12 @@ def c01_structural_dense(kind: int, bits: B8, starts: int, finals: int) -> bool:
 def c01_structural_sparse(kind: int, n: int, k: int, t: T12, m: int, starts: int, finals: int,
                           perm: int) -> bool:
     """
+    pre: pinned(kind=kind, n=n, k=k, m=m, starts=starts, perm=perm, t0=t[0], t1=t[1])
     pre: 0 <= kind < 3 and 2 <= n <= 3 and 1 <= k <= 2 and 0 <= m <= 4
     pre: 0 <= starts < (4 if n == 2 else 8) and 0 <= finals < (4 if n == 2 else 8) and 0 <= perm < 6
     pre: all(0 <= t[3 * i] < n and 0 <= t[3 * i + 1] <= k and 0 <= t[3 * i + 2] < n for i in range(4))
     pre: sparse_canonical(t, m)
     pre: m >= 2 or perm == 0
-    pre: pinned(kind=kind, n=n, k=k, m=m, starts=starts, perm=perm, t0=t[0], t1=t[1])
     post: _
     """
     nn = enc.pick(n, 4)
